@@ -41,7 +41,7 @@ def cases(tier, seed):
         for li in range(len(LABELS)):
             for rU in ((1, 2) if tier == "quick" else (1, 2, 3)):
                 for rV in ((1, 2) if tier == "quick" else (1, 2, 3)):
-                    for init in ((0, 1, 2, "pattern", "pattern_F", "zero_D") if tier == "quick" else (0, 1, 2, 3, 4, 5, "pattern", "pattern_F", "zero_D")):
+                    for init in ((0, 1, 2, "pattern", "pattern_F", "zero_D", "neg_D") if tier == "quick" else (0, 1, 2, 3, 4, 5, "pattern", "pattern_F", "zero_D", "neg_D")):
                         if tier == "quick" and ((rU + rV + (init if isinstance(init, int) else len(init)) + li) % 2):
                             continue
                         out.append(dict(ubm=u, labels=li, rU=rU, rV=rV, init=init, K=K_IT[tier], seed=seed))
@@ -60,7 +60,17 @@ def _stats(ubm, n, s, o, frac, dup=False):
         if frac and i % 2:
             st.n, st.sum_px, st.sum_pxx = st.n * 0.5, st.sum_px * 0.5, st.sum_pxx * 0.5
         out.append(st)
-    if dup:
+    if dup == "class":
+        # classes 0 and 1 with bit-identical pooled counts (sessions pairwise share their counts)
+        half = len(out) // 2
+        for a_ in range(half):
+            b_ = a_ + half
+            ratio = np.asarray(out[a_].n, float) / np.asarray(out[b_].n, float)
+            out[b_].sum_px = np.asarray(out[b_].sum_px, float) * ratio[:, None]
+            out[b_].sum_pxx = np.asarray(out[b_].sum_pxx, float) * ratio[:, None]
+            out[b_].n = np.array(out[a_].n, float)
+            out[b_].t = out[a_].t
+    elif dup:
         # two pairs of sessions with bit-identical counts but different first-order statistics
         for a_, b_ in ((0, 2), (1, 3)):
             if b_ < len(out):
@@ -86,6 +96,8 @@ def _machine(case, ubm, s, iters):
         m.U, m.V = U0, V0
         if init == "zero_D":  # residual term switched off for some dimensions
             m.D = np.where(np.arange(C * D) % 2 == 0, 0.0, np.asarray(m.D, float))
+        if init == "neg_D":  # D is a diagonal matrix: entries of either sign
+            m.D = np.asarray(m.D, float) * np.where(np.arange(C * D) % 3 == 0, -1.0, 1.0)
     return m
 
 
@@ -98,7 +110,7 @@ def run_case(case):
     ubm = c11._ubm(c11.UBMS[case["ubm"]], s, o)
     C, D = ubm.means.shape
     y = np.array(LABELS[case["labels"]])
-    X = _stats(ubm, len(y), s, o, frac=case["labels"] % 2 == 1, dup=case["labels"] in (2, 3))
+    X = _stats(ubm, len(y), s, o, frac=case["labels"] % 2 == 1, dup=("class" if case["labels"] == 0 else case["labels"] in (2, 3)))
     mvec = np.asarray(ubm.means, float).ravel()
     var = np.asarray(ubm.variances, float).ravel()
     classes = sorted(set(y.tolist()))
